@@ -2,7 +2,7 @@
    de-duplication of the key conversions (C11, QuadkeyConv.v) and of the clearance corridor (C14, Corridor.v).
    Generic layer and the other instances: Determinism.v. *)
 From Coq Require Import ZArith Lia List Bool Permutation String.
-From SID Require Import Base Str Ids ZoomCore ChangeZoom Neighbour SetOps Overlap QuadkeyConv Corridor Determinism.
+From SID Require Import Base Str Ids ZoomCore ChangeZoom Neighbour SetOps Overlap QuadkeyConv Line Corridor Determinism.
 Import ListNotations.
 Open Scope Z_scope.
 
@@ -87,21 +87,134 @@ Example run_groups_depend_on_order :
   run [] [[(1, 0); (2, 0)]; [(2, 0)]] = [[(1, 0); (2, 0)]] /\ run [] [[(2, 0)]; [(1, 0); (2, 0)]] = [[(2, 0)]; [(1, 0)]].
 Proof. split; vm_compute; reflexivity. Qed.
 
-(* ---- B8. corridor (transform.GetExtendedSpatialIdsWithinRadiusOfLine, after fix 70c64b2): whatever the three map orders and
-   whatever order the line's IDs arrive in, two successful runs with the same oracle answers return permutations of one list ---- *)
-Theorem corridor_deterministic on ou oq on' ou' oq' :
+(* the same about the IDs of a call: `conv` (the common body of ConvertExtendedSpatialIDsToQuadkeysAndVerticalIDs / ...AndAltitudekeys,
+   QuadkeyConv.e2q / e2qa) on two ID lists with the same members, both calls successful: the pairs of all returned groups, flattened,
+   are permutations of one duplicate-free list (which pairs one ID yields is QuadkeyConv.id_pairs) *)
+Section ConvPairs.
+  Context {P : Type}.
+  Variables (oh ov : Z) (par : P) (vert : Z -> Z -> result (list Z)).
+  Let idp := id_pairs oh vert.
+  Lemma pairs_exist ids : (forall s, In s ids -> idp s <> Err) -> exists pss, Forall2 (fun s ps => idp s = Ok ps) ids pss.
+  Proof.
+    induction ids as [|a r IH]; intros H; [exists []; constructor|].
+    destruct (idp a) as [ps|] eqn:E; [|exfalso; exact (H a (or_introl eq_refl) E)].
+    destruct IH as (pss & F); [intros s Hs; apply H; now right|]. exists (ps :: pss). constructor; assumption.
+  Qed.
+  Lemma forall2_members ids pss : Forall2 (fun s ps => idp s = Ok ps) ids pss ->
+    forall ps, In ps pss <-> exists s, In s ids /\ idp s = Ok ps.
+  Proof.
+    induction 1 as [|s ps ids pss Hs F IH]; intros q; cbn [In]; [split; [intros []|intros (s & [] & _)]|]. rewrite IH. split.
+    - intros [<-|(t & Ht & Hq)]; [exists s; auto|exists t; auto].
+    - intros (t & [<-|Ht] & Hq); [left; congruence|right; eauto].
+  Qed.
+  Lemma concat_groups (k : list (list pair)) : List.concat (map (@g_pairs P) (map (mkgroup oh ov par) k)) = List.concat k.
+  Proof. induction k as [|a r IH]; cbn; [reflexivity|]. now rewrite IH. Qed.
+  Lemma conv_ok_inv ids gs : conv oh ov par vert ids = Ok gs ->
+    exists pss, Forall2 (fun s ps => idp s = Ok ps) ids pss /\ gs = map (mkgroup oh ov par) (run [] pss).
+  Proof.
+    unfold conv. destruct (negb (qcheck oh ov)); [discriminate|]. intros E.
+    destruct (pairs_exist ids) as (pss & F).
+    { intros s Hs He. rewrite (conv_loop_err oh ov par vert ids [] s Hs He) in E. discriminate. }
+    exists pss. split; [exact F|]. rewrite (conv_loop_run oh ov par vert ids [] pss F) in E. now injection E as <-.
+  Qed.
+  Theorem conv_pairs_deterministic ids ids' gs gs' : same_members ids ids' ->
+    conv oh ov par vert ids = Ok gs -> conv oh ov par vert ids' = Ok gs' ->
+    Permutation (List.concat (map (@g_pairs P) gs)) (List.concat (map (@g_pairs P) gs')) /\ NoDup (List.concat (map (@g_pairs P) gs)).
+  Proof.
+    intros E C C'. destruct (conv_ok_inv ids gs C) as (pss & F & ->), (conv_ok_inv ids' gs' C') as (pss' & F' & ->).
+    rewrite !concat_groups. split; [|exact (proj1 (run_pairs pss))]. apply run_deterministic.
+    intros ps. rewrite (forall2_members ids pss F), (forall2_members ids' pss' F').
+    split; intros (s & Hs & Hp); exists s; (split; [now apply E|exact Hp]).
+  Qed.
+End ConvPairs.
+
+(* ---- B8. corridor (transform.GetExtendedSpatialIdsWithinRadiusOfLine, after the fixes 70c64b2 and 915e48e).  The measuring loop
+   reuses one closest.Measure whose search state is carried from candidate to candidate: Corridor.v threads that state (`St`,
+   `measure : St -> id -> result (bool * St)`) through the candidates in SORTED order, as the code does since 915e48e.  Whatever the
+   three map orders and whatever order the line's IDs arrive in: both runs fail, or both succeed with permutations of one
+   duplicate-free list.  (Before 915e48e the candidates were measured in map order: identical calls returned different sets, D15b.) ---- *)
+Theorem corridor_deterministic on ou oq on' ou' oq' fit (St : Type) (st0 : St) measure L L' skip :
   (forall l, Permutation (on l) l) -> (forall l, Permutation (ou l) l) -> (forall l, Permutation (oq l) l) ->
   (forall l, Permutation (on' l) l) -> (forall l, Permutation (ou' l) l) -> (forall l, Permutation (oq' l) l) ->
-  forall fit measure L L' skip r r', Permutation L L' ->
-  corridor on ou oq fit measure (Ok L) skip = Ok r -> corridor on' ou' oq' fit measure (Ok L') skip = Ok r' ->
-  Permutation r r' /\ NoDup r.
+  Permutation L L' ->
+  match corridor on ou oq fit St st0 measure (Ok L) skip, corridor on' ou' oq' fit St st0 measure (Ok L') skip with
+  | Ok r, Ok r' => Permutation r r' /\ NoDup r
+  | Err, Err => True
+  | _, _ => False
+  end.
 Proof.
-  intros Pn Pu Pq Pn' Pu' Pq' fit measure L L' skip r r' PL E E'.
-  destruct (corridor_inv on ou oq Pn Pu Pq fit measure _ _ _ E) as (L0 & p & H & V & a & EL & Ep & Ef & Ea & N & M & _).
-  destruct (corridor_inv on' ou' oq' Pn' Pu' Pq' fit measure _ _ _ E') as (L0' & p' & H' & V' & a' & EL' & Ep' & Ef' & Ea' & N' & M' & _).
-  injection EL as <-. injection EL' as <-.
-  rewrite (pick_perm L L' PL) in Ep. rewrite Ep in Ep'. injection Ep' as <-. rewrite Ef in Ef'. injection Ef' as <- <-.
-  pose proof (nN_api_perm L L' H V PL) as NP. rewrite Ea, Ea' in NP.
-  split; [|exact N]. apply NoDup_Permutation; [exact N|exact N'|]. intros s. rewrite M, M', (NP s).
-  assert (IL : In s L <-> In s L') by (apply perm_same_members, PL). rewrite IL. tauto.
+  intros Pn Pu Pq Pn' Pu' Pq' P.
+  pose proof (corridor_order_blind on ou oq on' ou' oq' fit St st0 measure L L' skip Pn Pu Pq Pn' Pu' Pq' P) as X.
+  destruct (corridor on ou oq fit St st0 measure (Ok L) skip) as [r|] eqn:E; [|exact X].
+  destruct (corridor on' ou' oq' fit St st0 measure (Ok L') skip) as [r'|]; [|exact X].
+  split; [exact X|]. exact (corridor_NoDup on ou oq Pn Pu Pq fit St st0 measure (Ok L) skip r E).
+Qed.
+
+(* ---- B9. line (shape.GetExtendedSpatialIdsOnLine): the recursion is fixed by the two points, the only map is the final Unique ---- *)
+Theorem line_deterministic (P : Type) vox_top vox_in mid small (ord ord' : list eid -> list eid) fuel (s e : P) l :
+  (forall x, Permutation (ord x) x) -> (forall x, Permutation (ord' x) x) ->
+  Line.line_ids P vox_top vox_in mid small fuel s e = Some l -> Permutation (ord l) (ord' l) /\ NoDup (ord l).
+Proof.
+  intros Po Po' E. split; [apply perm_ord; [exact Po|exact Po'|apply Permutation_refl]|].
+  eapply Permutation_NoDup; [apply Permutation_sym, Po|]. exact (Line.line_NoDup P vox_top vox_in mid small fuel s e l E).
+Qed.
+
+(* ---- B10. (quadkey, vertical index) -> IDs (transform.ConvertQuadkeysAndVerticalIDsTo(Extended)SpatialIDs): every item expanded,
+   then deleteDuplicationList (a map used as a set).  Items with the same members: both calls fail, or permutations of one
+   duplicate-free list ---- *)
+Lemma q2e_loop_inv oh ov items :
+  (q2e_loop oh ov items = Err <-> exists it, In it items /\ q2e_item oh ov it = Err) /\
+  (forall l, q2e_loop oh ov items = Ok l -> forall s, In s l <-> exists it li, In it items /\ q2e_item oh ov it = Ok li /\ In s li).
+Proof.
+  induction items as [|a r [IE IO]]; cbn [q2e_loop].
+  - split; [split; [discriminate|intros (it & [] & _)]|]. intros l [= <-] s. split; [intros []|intros (it & li & [] & _)].
+  - destruct (q2e_item oh ov a) as [la|] eqn:Ea.
+    + destruct (q2e_loop oh ov r) as [t|] eqn:Er.
+      * split.
+        -- split; [discriminate|]. intros (it & [<-|Hin] & He); [congruence|].
+           destruct IE as [_ IE2]. specialize (IE2 (ex_intro _ it (conj Hin He))). discriminate.
+        -- intros l [= <-] s. rewrite in_app_iff, (IO t eq_refl s). split.
+           ++ intros [Hs|(it & li & Hin & Hi & Hs)]; [exists a, la; repeat split; auto; now left|exists it, li; repeat split; auto; now right].
+           ++ intros (it & li & [<-|Hin] & Hi & Hs); [left; congruence|right; eauto].
+      * split; [|discriminate]. split; [|reflexivity]. intros _. destruct IE as [IE1 _].
+        destruct (IE1 eq_refl) as (it & Hin & He). exists it. split; [now right|exact He].
+    + split; [|discriminate]. split; [|reflexivity]. intros _. exists a. split; [now left|exact Ea].
+Qed.
+Theorem q2e_deterministic (ord ord' : list string -> list string) items items' oh ov :
+  (forall x, Permutation (ord x) x) -> (forall x, Permutation (ord' x) x) -> same_members items items' ->
+  match q2e items oh ov, q2e items' oh ov with
+  | Ok a, Ok a' => Permutation (ord a) (ord' a') /\ NoDup (ord a)
+  | Err, Err => True
+  | _, _ => False
+  end.
+Proof.
+  intros Po Po' E. unfold q2e. destruct (negb (echeck oh ov)); [exact I|].
+  destruct (q2e_loop_inv oh ov items) as [IE IO], (q2e_loop_inv oh ov items') as [IE' IO'].
+  destruct (q2e_loop oh ov items) as [l|] eqn:E1, (q2e_loop oh ov items') as [l'|] eqn:E2.
+  - assert (M : same_members l l').
+    { intros s. rewrite (IO l eq_refl s), (IO' l' eq_refl s). split; intros (it & li & Hin & Hi & Hs); exists it, li; (split; [now apply E|auto]). }
+    split.
+    + apply perm_ord; [exact Po|exact Po'|]. apply NoDup_Permutation; try apply dedup_strings_NoDup.
+      intros s. rewrite !dedup_strings_In. apply M.
+    + eapply Permutation_NoDup; [apply Permutation_sym, Po|apply dedup_strings_NoDup].
+  - destruct IE' as [IE1 _]. destruct (IE1 eq_refl) as (it & Hin & He).
+    destruct IE as [_ IE2]. specialize (IE2 (ex_intro _ it (conj (proj2 (E it) Hin) He))). discriminate.
+  - destruct IE as [IE1 _]. destruct (IE1 eq_refl) as (it & Hin & He).
+    destruct IE' as [_ IE2]. specialize (IE2 (ex_intro _ it (conj (proj1 (E it) Hin) He))). discriminate.
+  - exact I.
+Qed.
+(* the spatial-ID form re-labels every string of that result: same members, same error status *)
+Theorem q2s_deterministic items items' z : same_members items items' ->
+  match q2s items z, q2s items' z with
+  | Ok a, Ok a' => same_members a a'
+  | Err, Err => True
+  | _, _ => False
+  end.
+Proof.
+  intros E. pose proof (q2e_deterministic (fun x => x) (fun x => x) items items' z z id_is_order id_is_order E) as X.
+  unfold q2s. destruct (q2e items z z) as [a|], (q2e items' z z) as [a'|]; try (exfalso; exact X); [|exact I]. destruct X as [P _].
+  unfold eids_to_sids. destruct (map_opt eid_to_sid_str a) as [r|] eqn:M.
+  - destruct (map_opt_same_members eid_to_sid_str a a' r (perm_same_members _ _ P) M) as (r' & -> & S). exact S.
+  - destruct (map_opt eid_to_sid_str a') as [r'|] eqn:M'; [|exact I].
+    destruct (map_opt_same_members eid_to_sid_str a' a r' (same_members_sym _ _ (perm_same_members _ _ P)) M') as (r0 & M0 & _). congruence.
 Qed.
